@@ -1317,7 +1317,7 @@ def main(tier, replay=None):
         "extraction: ExtrOcamlBasic only; Z/positive/nat kept as extracted inductives; OCaml 4.13.1; zarith only for text I/O in harness/zio.ml",
         "the Gallina model (coq/C09/Model.v) is hand-written after the C++ control structure; the tie is the correspondence run on every case of a prime field (same stream of generator outputs on both sides)",
         "harness/c09_factor.C (Replay generator substituted for GivRandom through the RandomIterator template parameter), checks/C09.py (generators, python GF(q) arithmetic, divisor search, Rabin test, order by definition)",
-        "is_prim_root / order / give_prim_root factor q^n-1 with a local IntFactorDom<> whose generator is seeded from the clock (givrandom.h): it cannot be seeded from outside, runs on large fields are not replayable step by step; the answers do not depend on it (checked against the factorisation computed by python), the running time does: a `does not return` verdict needs the per-case CPU budget to be exceeded twice, the second time alone with 5x the budget",
+        "is_prim_root / order / give_prim_root factor q^n-1 with a local IntFactorDom<> whose generator is seeded from the clock (givrandom.h): it cannot be seeded from outside, runs on large fields are not replayable step by step; the answers do not depend on it (checked against the factorisation computed by python), the running time does: a `does not return` verdict needs the per-case CPU budget to be exceeded twice, the second time alone (quick: 10 s in the batch, then 30 s alone)",
         "not proved: that the X^(q^i)-X gcd test characterises irreducibility for every q and degree (finite-field structure theory); claimed only for the exhaustively swept bounds stated in the theorems",
     ]
     chk.assumptions = ["partial: theorems cover the logic (product preservation for every oracle stream, verified checkers) and bounded exhaustive sweeps; the rest is checked per run on the implementation's outputs",
@@ -1399,21 +1399,21 @@ def main(tier, replay=None):
     phase("generate")
     wall = 900 if tier == "quick" else 3000
     cpu = 600 if tier == "quick" else 3000          # outer limit of a whole batch (tooling); the verdict "does not return" is per case:
-    ccpu = 20 if tier == "quick" else 60            # CPU seconds for one call (typical: milliseconds), confirmed alone with 5x
-    iout, inc1 = run_isolated(himpl, cases, wall, cpu, ccpu)
+    ccpu, ccon = (10, 30) if tier == "quick" else (30, 90)      # CPU seconds for one call (typical: milliseconds) / for its confirmation alone
+    iout, inc1 = run_isolated(himpl, cases, wall, cpu, ccpu, ccon)
     # cases that ran out of random draws get a long deterministic continuation of their stream (same on both sides); when
     # the second run does not complete (tooling time-out) the case keeps its first stream and stays inconclusive
     retry = [i for i in range(len(cases)) if iout[i].startswith("EXHAUSTED")]
-    nhang = sum(1 for l in iout if l.startswith(("HANG", "CRASH")))
+    nhang = sum(1 for l in iout if l.startswith(("HANG", "CRASH"))) + (1 if HANG_STATE["stopped"] else 0)
     retry = retry[:(400 if tier != "quick" else 80) if not nhang else 10]      # the others stay on their first stream (inconclusive unless the model returns)
     if retry:
         saved = dict((i, cases[i].stream) for i in retry)
         for i in retry:
             r2 = vf.Rng(chk.seed * 1000003 + i)
             cases[i].stream = list(cases[i].stream) + stream(r2, EXTRA_DRAWS)
-        out2, inc2 = run_isolated(himpl, [cases[i] for i in retry], wall, cpu, ccpu)
+        out2, inc2 = run_isolated(himpl, [cases[i] for i in retry], wall, cpu, 3 * ccpu, ccon, may_confirm=False)
         for i, l in zip(retry, out2):
-            if l.startswith(("TIMEOUT", "SKIPPED")):
+            if l.startswith(("TIMEOUT", "SKIPPED", "NOTDRIVEN")):
                 cases[i].stream = saved[i]
             else:
                 iout[i] = l
@@ -1434,7 +1434,7 @@ def main(tier, replay=None):
             return "%s %s - %s %s" % ({"isproot": "isprootL", "order": "orderL"}[c.base()], c.F.name, " ".join(c.args), ",".join(str(l) for l in c.meta["L"]))
         return c.line(mop[c.op])
     midx = [i for i, c in enumerate(cases) if type(c.F) is Fp and c.op in MODEL_OP and (not c.meta.get("nomodel") or c.meta.get("L"))
-            and not iout[i].startswith(("TIMEOUT", "SKIPPED", "UNKNOWN-OP"))]
+            and not iout[i].startswith(("TIMEOUT", "SKIPPED", "NOTDRIVEN", "UNKNOWN-OP"))]
     big = [i for i in midx if cases[i].F.p > 1000]       # the extracted model runs on unary/binary inductives: sample the big field
     if len(big) > 400:
         drop = set(big[400:])
@@ -1461,7 +1461,7 @@ def main(tier, replay=None):
         chk.count((c.op, c.F.name, tuple(c.args), tuple(c.stream[:8])), nontrivial=nontrivial)
         if i % 211 == 0:
             chk.sample({"case": c.describe(False), "impl": iout[i][:300]})
-        if payload.startswith(("SKIPPED", "TIMEOUT")):
+        if payload.startswith(("SKIPPED", "TIMEOUT", "NOTDRIVEN")):
             ninconclusive += 1
             continue
         if payload.startswith("UNKNOWN-OP") and b == "factor1" and not factor1_ok:
@@ -1484,7 +1484,7 @@ def main(tier, replay=None):
         if v is not None:
             d = c.describe()
             d["meta"] = dict((k, x) for k, x in c.meta.items() if k in ("n", "d", "nomodel"))
-            chk.fail_input(SITE.get(b, b), failing_class(c, payload), d, v[0], iout[i], v[1])
+            chk.fail_input(SITE.get(b, b), "does-not-return" if payload.startswith("HANG") else failing_class(c, payload), d, v[0], iout[i], v[1])
             continue
         if i in mout:
             ncorr += 1
@@ -1553,7 +1553,7 @@ def main(tier, replay=None):
     chk.cov["floors"] = floors
     chk.cov["floor_missed"] = missed
     chk.cov["inconclusive"] = {"cases_timeout_or_skipped_or_stream_exhausted": ninconclusive, "tooling_timeouts": list(chk.cov["inconclusive_tooling_timeouts"]),
-                               "slow_cases_confirmed_alone": SLOW_CASES[:20], "factor1_not_instantiable_cases": nnotinst}
+                               "slow_cases_confirmed_alone": SLOW_CASES[:20], "hang_handling": {"first_stage_overruns": HANG_STATE["overruns"], "confirmations": HANG_STATE["confirmations"], "forms_not_driven": HANG_STATE["dead_forms"], "stream_stopped": HANG_STATE["stopped"], "budgets_cpu_s": [ccpu, ccon]}, "factor1_not_instantiable_cases": nnotinst}
     if missed or chk.cov["inconclusive_tooling_timeouts"]:
         print("INCONCLUSIVE property=C09 (not a pass of the affected probes): " + "; ".join(missed + chk.cov["inconclusive_tooling_timeouts"]))
     chk.cov["traces_validated_against_impl"] = ncorr
@@ -1614,20 +1614,43 @@ def run_proc(binary, text, wall, cpu, case_cpu=0):
 
 
 SLOW_CASES = []
+HANG_STATE = {"dead_forms": {}, "overruns": 0, "confirmations": 0, "crashes": {}, "stopped": ""}
+MAX_OVERRUNS, MAX_CONFIRM, MAX_CRASH_PER_FORM = 6, 3, 4
 
 
-def run_isolated(himpl, cases, wall=900, cpu=600, case_cpu=20):
-    """run the cases in one process.  A case that does not return within `case_cpu` seconds of CPU time (watchdog inside the harness) is
-    run once more ALONE with five times that budget (is_prim_root / order factor q^n-1 with a time-seeded Pollard/Lenstra: their running
-    time is not a function of the input alone); only if it again does not return it is recorded as HANG = a failing input "does not
-    return".  A crash is recorded as CRASH for the case it stopped on.  After 2 hangs/crashes the rest is SKIPPED.  Wall-clock time-outs
-    and the outer batch CPU limit are time-outs of the tooling: unanswered cases are run once more, then recorded as TIMEOUT.
-    SKIPPED and TIMEOUT are inconclusive, never a pass and never a failing input.  Returns (output lines, number of TIMEOUT cases)."""
+def run_isolated(himpl, cases, wall=900, cpu=600, case_cpu=10, confirm_cpu=30, may_confirm=True):
+    """run the cases in one process (no parallel workers: one budget).  Hang handling, bounded (state shared by every call in a run):
+    * a call that does not return within `case_cpu` s of CPU time (watchdog inside the harness; typical calls take micro- to
+      milliseconds) is a first-stage overrun; it is run once more ALONE with `confirm_cpu` s; if it again does not return it is HANG =
+      a failing input of class does-not-return, and its call form is not driven any more in this run (remaining cases: NOTDRIVEN);
+      if it returns, its answer is used and it is listed as a slow case;
+    * at most MAX_CONFIRM confirmations and MAX_OVERRUNS first-stage overruns per run, then the stream stops (rest SKIPPED);
+    * a crash is CRASH for the case it stopped on; after MAX_CRASH_PER_FORM crashes of a form that form is not driven any more;
+    * with may_confirm=False (long continuation streams) an overrun is a TIMEOUT (inconclusive), never a HANG;
+    * wall-clock time-outs and the outer batch CPU limit are time-outs of the tooling: TIMEOUT after one more attempt.
+    NOTDRIVEN / SKIPPED / TIMEOUT are inconclusive: never a pass, never a failing input.  Returns (lines, number of TIMEOUT cases)."""
+    H = HANG_STATE
     out = [None] * len(cases)
     rest = list(range(len(cases)))
-    stops = walls = 0
+    walls = 0
     ok_line = re.compile(r"#\d+\s*$")
+
+    def drop_dead(idx):
+        keep = []
+        for i in idx:
+            if cases[i].op in H["dead_forms"]:
+                out[i] = "NOTDRIVEN (%s)" % H["dead_forms"][cases[i].op]
+            else:
+                keep.append(i)
+        return keep
     while rest:
+        rest = drop_dead(rest)
+        if not rest:
+            break
+        if H["stopped"]:
+            for i in rest:
+                out[i] = "SKIPPED"
+            break
         st, lines = run_proc(himpl, "".join(cases[i].line() + "\n" for i in rest), wall, cpu, case_cpu)
         lines = [l for l in lines if ok_line.search(l)]          # drop a partial last line / the HANG-CPU marker
         for i, l in zip(rest, lines):
@@ -1643,28 +1666,33 @@ def run_isolated(himpl, cases, wall=900, cpu=600, case_cpu=20):
                 break
             continue
         k = rest[len(lines)]
+        rest = rest[len(lines) + 1:]
+        form = cases[k].op
         if st == "casecpu":
-            mult = 5 if stops == 0 else 2          # the first "does not return" is confirmed with 5x the budget, later ones with 2x
-            st2, l2 = run_proc(himpl, cases[k].line() + "\n", wall, mult * case_cpu + 30, mult * case_cpu)
-            l2 = [l for l in l2 if ok_line.search(l)]
-            if l2:
-                out[k] = l2[0]
-                SLOW_CASES.append("%s %s %s: more than %d s CPU in the batch, returned when run alone" % (cases[k].op, cases[k].F.name, " ".join(cases[k].args)[:80], case_cpu))
-                rest = rest[len(lines) + 1:]
-                continue
-            if st2 != "casecpu":
+            H["overruns"] += 1
+            if not may_confirm:
                 out[k] = "TIMEOUT"
-                rest = rest[len(lines) + 1:]
-                continue
-            out[k] = "HANG (no return within %d s of CPU time; reproduced when run alone with %d s)" % (case_cpu, mult * case_cpu)
+            else:
+                H["confirmations"] += 1
+                st2, l2 = run_proc(himpl, cases[k].line() + "\n", wall, confirm_cpu + 30, confirm_cpu)
+                l2 = [l for l in l2 if ok_line.search(l)]
+                if l2:
+                    out[k] = l2[0]
+                    SLOW_CASES.append("%s %s %s: more than %d s CPU in the batch, returned when run alone" % (form, cases[k].F.name, " ".join(cases[k].args)[:80], case_cpu))
+                elif st2 == "casecpu":
+                    out[k] = "HANG (no return within %d s of CPU time; reproduced when run alone with %d s)" % (case_cpu, confirm_cpu)
+                    H["dead_forms"][form] = "call form %s not driven after a confirmed does-not-return" % form
+                else:
+                    out[k] = "TIMEOUT"
+            if H["overruns"] >= MAX_OVERRUNS or H["confirmations"] >= MAX_CONFIRM:
+                H["stopped"] = "%d first-stage overruns, %d confirmations" % (H["overruns"], H["confirmations"])
         else:
             out[k] = "CRASH %s" % st
-        rest = rest[len(lines) + 1:]
-        stops += 1
-        if stops >= 2:
-            for i in rest:
-                out[i] = "SKIPPED"
-            break
+            H["crashes"][form] = H["crashes"].get(form, 0) + 1
+            if H["crashes"][form] >= MAX_CRASH_PER_FORM:
+                H["dead_forms"][form] = "call form %s not driven after %d crashes" % (form, MAX_CRASH_PER_FORM)
+            if sum(H["crashes"].values()) >= 12:
+                H["stopped"] = "12 crashes"
     return out, sum(1 for l in out if l == "TIMEOUT")
 
 
